@@ -234,7 +234,10 @@ func (i *Index) SkipUnless(patterns []string) {
 	for _, e := range i.Entries {
 		var include bool
 		for _, pattern := range patterns {
-			if strings.HasPrefix(e.Name, pattern) {
+			// Match whole path components: "a" selects "a" and
+			// everything below "a/", not "ab/file".
+			dir := strings.TrimSuffix(pattern, "/")
+			if e.Name == dir || strings.HasPrefix(e.Name, dir+"/") {
 				include = true
 				break
 			}
